@@ -157,6 +157,9 @@ def c01(ctx, api):
     st, summ = api['run_tlc_to_harness'](ctx, 'names', 'GenNames', cfg(constants={'Emit': 'TRUE', 'Prop': '"C01"'}), timeout=1500)
     acc.add('GenNames: 31 member names that look like syntax ("x.y", "x[0]", "*", "a|b", "", "0", "let" ...) in 17 positions, each paired with its '
             'piped spelling, on documents that also hold what a name split at dots or brackets would find', st, summ)
+    st, summ = api['run_tlc_to_harness'](ctx, 'let', 'GenLet', cfg(constants={'Emit': 'TRUE', 'Prop': '"C01"', 'Depth': 2}), timeout=3000)
+    acc.add('GenLet: projections, filters and pipes whose sub-expressions read variables, incl. correlated sub-queries (a let inside an iteration '
+            'binding part of the element, used by a filter rooted at $)', st, summ)
     return acc.result(RULE_PINNED, extra={'bounds': {'bfs_depth': depth, 'pool_documents': 15}})
 
 
